@@ -2,7 +2,7 @@
 (***************************************************************************)
 (* Random streams (C19, per-thread part of C09).  Each thread owns one      *)
 (* generator; its abstract state is (seed, log of calls since seeding).    *)
-(* A fresh thread starts as if rng(0) had been called.  Determinism: the   *)
+(* A fresh thread starts in a default state of its own (seed -1 here).  Determinism: the   *)
 (* values returned by a call are a function of (seed, calls since the       *)
 (* seed) only — not of what happened before the seed, nor of other threads. *)
 (* canon remembers the first observation for every (seed, call log).       *)
@@ -11,7 +11,7 @@ EXTENDS Integers, Sequences, FiniteSets
 
 Has(f, x) == x \in DOMAIN f
 Put(f, x, v) == [y \in (DOMAIN f) \cup {x} |-> IF y = x THEN v ELSE f[y]]
-Fresh == [seed |-> 0, calls |-> <<>>]
+Fresh == [seed |-> -1, calls |-> <<>>]      \* the default state of a new thread: no listed property equates it with any seed
 (* thread t seeds: forget the call log *)
 SeedStep(gen, t, s) == Put(gen, t, [seed |-> s, calls |-> <<>>])
 (* thread t draws with `call` and observes `vals`; returns <<ok, gen', canon'>> *)
